@@ -102,6 +102,7 @@ type W struct {
 	steps    []map[string]any
 	maxSeq   uint64
 	v0       [2]int64 // first version whose snapshot the model knows
+	curStart int // index into cbs where the callbacks of the operation being executed start
 	lhChan   [2][2][2]string // localhost channel pairs per chain: [chain][0 unordered,1 ordered][end]
 }
 
@@ -288,7 +289,8 @@ func (w *W) install() {
 		for _, m := range []mockv2.IBCModule{app.MockModuleV2A, app.MockModuleV2B} {
 			idxOf := func(id string, seq uint64, kind string) uint64 {
 				n := uint64(0)
-				for _, e := range w.cbs {
+				// payload index = number of callbacks of this kind for this packet within the current message
+				for _, e := range w.cbs[w.curStart:] {
 					if e.Chain == ci && e.Ev[0] == kind && e.Ev[1] == w.ids.id(id) && e.Ev[2] == hx.U(seq) {
 						n++
 					}
@@ -522,6 +524,7 @@ func (w *W) record(ci int, h clienttypes.Height, t uint64, op map[string]any, ou
 func (w *W) tx(ci int, op map[string]any, noopCheck func(*abci.ExecTxResult) bool, msgs ...sdk.Msg) (string, *abci.ExecTxResult) {
 	h, t := w.begin(ci)
 	start := len(w.cbs)
+	w.curStart = start
 	res, err := w.ch[ci].SendMsgs(msgs...)
 	w.resync(ci)
 	out := classify(res, err)
@@ -549,6 +552,7 @@ func (w *W) resync(ci int) {
 func (w *W) direct(ci int, op map[string]any, f func(ctx sdk.Context) error) string {
 	h, t := w.begin(ci)
 	start := len(w.cbs)
+	w.curStart = start
 	c := w.ch[ci]
 	ctx := c.GetContext()
 	cctx, write := ctx.CacheContext()
